@@ -15,6 +15,8 @@ def attr(obj, gen, name):
     try:
         v = getattr(m, name)
         if callable(v):
+            if name in ('prefix_specifiers', 'postfix_specifiers'):
+                return {'v': str(v())}
             return {'err': 'callable'}
         if isinstance(v, (set, frozenset)):
             return {'v': sorted(str(x) for x in v), 'set': True}
@@ -40,7 +42,10 @@ def tref(r):
             'target': None if td is None else {'name': str(td.name), 'ns': [str(x) for x in td.namespace], 'prim': str(td.primitive.value),
                                                'builtin': not hasattr(td, 'dependencies'), 'anonymous': bool(getattr(td, 'anonymous', False)),
                                                'java': {a: attr(td, 'java', a).get('v') for a in ('typename', 'boxed', 'reference')},
-                                               'jni': {a: attr(td, 'jni', a).get('v') for a in ('type_signature', 'boxed_type_signature', 'typename')}}}
+                                               'jni': {a: attr(td, 'jni', a).get('v') for a in ('type_signature', 'boxed_type_signature', 'typename')},
+                                               'cpp': {a: attr(td, 'cpp', a).get('v') for a in ('typename', 'by_value')},
+                                               'objc': {a: attr(td, 'objc', a).get('v') for a in ('typename', 'boxed', 'pointer')},
+                                               'cppcli': {a: attr(td, 'cppcli', a).get('v') for a in ('typename', 'reference')}}}
 
 
 def dump_members(d, want):
